@@ -173,6 +173,10 @@ fn private_is_dirty(
             }
             DepMode::Modified
                 if f2.is_generated()
+                    // (dealt with in this run already: its row says what this
+                    // run has to know, whoever holds its lock at the moment --
+                    // somebody who is merely checking it, as a rule)
+                    && !(cb.is_checked)(&f2, ptx.state().env())
                     && !already_checked.contains(&f2.id())
                     && crate::cycles::check(f2.id().to_string()).is_ok()
                     && ptx.state().is_locked_now(f2.id())? =>
